@@ -67,6 +67,13 @@ func class(v ref.Value) string {
 	return "leaf"
 }
 
+// Results must be independent memory: the previous result is kept and compared
+// after the next call.
+var (
+	lastOut, lastCopy []byte
+	clobbered         string
+)
+
 // phase1 runs Canonicalize on one layout and compares the output with the
 // reference; check is "" if everything holds.
 func phase1(l ref.Layout) (check string, detail string, out []byte) {
@@ -87,9 +94,15 @@ func phase1(l ref.Layout) (check string, detail string, out []byte) {
 		return "root-error", err.Error(), nil
 	}
 	out, err = capnp.Canonicalize(root.Struct())
+	// the result of the previous call must not have been touched by this one
+	if lastOut != nil && !bytes.Equal(lastOut, lastCopy) && clobbered == "" {
+		clobbered = fmt.Sprintf("the canonical form returned by an earlier Canonicalize call changed when Canonicalize was called again:\n was %s\n now %s", ref.HexSegments([][]byte{lastCopy}), ref.HexSegments([][]byte{lastOut}))
+	}
+	lastOut, lastCopy = nil, nil
 	if err != nil {
 		return "error", "Canonicalize: " + err.Error(), nil
 	}
+	lastOut, lastCopy = out, append([]byte{}, out...)
 	want, werr := ref.Canonical(l.Decoded)
 	if werr != nil {
 		return "harness", werr.Error(), nil
@@ -237,6 +250,10 @@ func canonCase(u []ref.Value, tier string) func(i int64, r *vlib.Rec) {
 				continue
 			}
 			r.Fail("canon/"+check+"/"+witness(tree, wcheck, 0), detail+ctx)
+		}
+		if clobbered != "" {
+			r.Fail("canon/result-clobbered-by-later-call", clobbered)
+			clobbered = ""
 		}
 	}
 }
